@@ -58,6 +58,26 @@ mod verif_standins {
             let expected = c.to_scalar() * Scalar::from(v as u64) + s;
             assert!(rc.verify_range_constraint(&params, c, expected), "STANDIN range.verify_range_constraint: honest constraint on {} rejected", v);
             assert!(!rc.verify_range_constraint(&params, c, expected + Scalar::one()), "STANDIN range.verify_range_constraint: mislinked constraint accepted");
+            // every digit proof must verify on its own: correlated tampering that cancels in a product of the nine pairing
+            // equations (sigma2 of two digit proofs exchanged, or shifted by +D / -D) must be refused
+            #[cfg(feature = "bincode")]
+            {
+                use crate::proofs::signature::standin_access_impl as acc;
+                let dup = |r: &RangeConstraint| -> RangeConstraint { bincode::deserialize(&bincode::serialize(r).unwrap()).unwrap() };
+                let mut t = dup(&rc);
+                let (a, b) = (acc::sigma2(&t.digit_proofs[0]), acc::sigma2(&t.digit_proofs[1]));
+                if a != b {
+                    acc::set_sigma2(&mut t.digit_proofs[0], b);
+                    acc::set_sigma2(&mut t.digit_proofs[1], a);
+                    assert!(!t.verify_range_constraint(&params, c, expected), "STANDIN range.verify_range_constraint: constraint on {} accepted with sigma2 of two digit proofs exchanged", v);
+                }
+                let d = G1Projective::generator() * Scalar::from(9u64);
+                let mut t = dup(&rc);
+                let (a, b) = (acc::sigma2(&t.digit_proofs[2]), acc::sigma2(&t.digit_proofs[8]));
+                acc::set_sigma2(&mut t.digit_proofs[2], (G1Projective::from(a) + d).into());
+                acc::set_sigma2(&mut t.digit_proofs[8], (G1Projective::from(b) - d).into());
+                assert!(!t.verify_range_constraint(&params, c, expected), "STANDIN range.verify_range_constraint: constraint on {} accepted with sigma2 of two digit proofs shifted by +D / -D", v);
+            }
         }
     }
 
